@@ -328,10 +328,17 @@ def native_venn(rng, nsorters, chunk, last_on_boundary, silent=False):
 
 def native_rank(rng):
     bad = []
-    for ncols, nrows, unit in ((1, 8, 1.0), (2, 10, 1.0), (4, 12, 1.0), (1, 5, 1.0), (2, 9, 1.0), (3, 13, 1.0), (5, 7, 1.0), (2, 10, 1e-3), (4, 12, 1e-3), (3, 13, 1e-6)):
+    for ncols, nrows, unit, order in ((1, 8, 1.0, "c"), (2, 10, 1.0, "c"), (4, 12, 1.0, "c"), (1, 5, 1.0, "c"), (2, 9, 1.0, "c"), (3, 13, 1.0, "c"), (5, 7, 1.0, "c"), (2, 10, 1e-3, "c"), (4, 12, 1e-3, "c"), (3, 13, 1e-6, "c"),
+                                     (3, 8, 1.0, "c"), (3, 8, 1.0, "row by row"), (3, 8, 1.0, "shuffled"), (8, 3, 1.0, "c"), (3, 8, 1.0, "c")):
         # coordinates in micrometres, millimetres (0.016 / 0.020: pitches without an exact binary representation) or metres
         x = np.repeat(np.arange(ncols), nrows) * 16.0 * unit
         y = np.tile(np.arange(nrows), ncols) * 20.0 * unit
+        # the same number of sites and of distinct x / y as the layout before, traces listed in another order (one process handles many layouts, one after the other)
+        if order == "row by row":
+            x, y = np.tile(np.arange(ncols), nrows) * 16.0 * unit, np.repeat(np.arange(nrows), ncols) * 20.0 * unit
+        elif order == "shuffled":
+            pp = rng.permutation(x.size)
+            x, y = x[pp], y[pp]
         nc = x.size
         ns = 200
         t = np.arange(ns) / 30000
@@ -464,14 +471,16 @@ def b_native(B):
     B.case("smoothers_constants_lengths", not bad, detail=bad[:5])
     bad = []
     for dt in (np.float64, np.float32):
-        for labels in ("random", "interleaved", "contiguous"):
+        for labels in ("random", "interleaved", "contiguous", "some labels carried by one trace", "one trace per label"):
             data = rng.standard_normal((30, 7)).astype(dt)
-            word = {"random": rng.integers(0, 5, 30), "interleaved": np.arange(30) % 4 * 10, "contiguous": np.repeat(np.arange(5), 6) + 3}[labels]
+            word = {"random": rng.integers(0, 5, 30), "interleaved": np.arange(30) % 4 * 10, "contiguous": np.repeat(np.arange(5), 6) + 3,
+                    "some labels carried by one trace": np.r_[np.arange(6), np.repeat(np.arange(6, 10), 6)], "one trace per label": rng.permutation(30)}[labels]
             for with_nan in (False, True):
                 d = data.copy()
                 if with_nan:
                     d[rng.integers(0, 30, 9), rng.integers(0, 7, 9)] = np.nan
-                for name, fcn, ref in (("default", None, np.nanmean), ("mean", np.mean, np.mean), ("sum", np.sum, np.sum), ("median", np.median, np.median), ("nanmean", np.nanmean, np.nanmean)):
+                for name, fcn, ref in (("default", None, np.nanmean), ("mean", np.mean, np.mean), ("sum", np.sum, np.sum), ("median", np.median, np.median), ("nanmean", np.nanmean, np.nanmean),
+                                       ("nansum", np.nansum, np.nansum), ("std", np.std, np.std), ("ptp", np.ptp, np.ptp), ("count of finite samples", lambda a, axis=0: np.sum(np.isfinite(a), axis=axis), lambda a, axis=0: np.sum(np.isfinite(a), axis=axis))):
                     hdr = {"offset": np.arange(30, dtype=float)}
                     st, hs = V.stack(d.copy(), word, header=hdr) if fcn is None else V.stack(d.copy(), word, fcn_agg=fcn, header=hdr)
                     groups = np.unique(word)
